@@ -89,6 +89,9 @@ impl Kind {
 struct ActorSpec {
     kind: Kind,
     linked: bool,
+    /// Loop only: the tool calls the scripted provider asks for, one per response
+    #[serde(default)]
+    calls: Vec<Kind>,
 }
 
 #[derive(Clone, Debug, serde::Serialize, serde::Deserialize)]
@@ -228,6 +231,7 @@ struct Run<'a> {
     settle: Duration,
     obs: Obs,
     files_seen: BTreeMap<String, Vec<u8>>,
+    providers: Vec<rv::provider::ScriptedProvider>,
     span_owner: Option<usize>, // actor between `acquired` and its release, by the hook points
     tool_running: bool,        // ... and its tool has not come back yet
 }
@@ -268,33 +272,82 @@ impl<'a> Run<'a> {
     fn actor_file(&self, i: usize) -> String {
         format!("w{i}.txt")
     }
+    fn call_file(&self, i: usize, c: usize) -> String {
+        if self.sc.actors[i].kind == Loop {
+            format!("w{i}_{c}.txt")
+        } else {
+            self.actor_file(i)
+        }
+    }
 
-    fn command(&self, i: usize) -> String {
+    fn command(&self, i: usize, blocking: bool) -> String {
         let m = marker_path(&self.side);
-        let k = self.sc.actors[i].kind;
-        if k.blocking() {
+        if blocking {
             format!("echo enter {i} >> {m}; read _ < {f}; echo exit {i} >> {m}", m = m.display(), f = self.side.join(format!("fifo{i}")).display())
         } else {
             format!("echo enter {i} >> {m}; echo exit {i} >> {m}", m = m.display())
         }
     }
 
+    fn tool_args(&self, i: usize, c: usize, k: Kind) -> Value {
+        match k {
+            Bash | Shell | BashQuick => json!({"command": self.command(i, k.blocking())}),
+            Write => json!({"path": self.call_file(i, c), "content": format!("by {i}\n")}),
+            Patch => json!({"patch": format!("*** Begin Patch\n*** Add File: {}\n+by {i}\n*** End Patch\n", self.call_file(i, c))}),
+            Read => json!({"path": "seed.txt"}),
+            Ls => json!({"path": "."}),
+            Grep => json!({"pattern": "seed", "path": "."}),
+            Fetch => json!({"id": "0".repeat(64)}),
+            _ => json!({}),
+        }
+    }
+
     fn input_for(&self, i: usize) -> String {
         let k = self.sc.actors[i].kind;
         let v = match k {
-            Bash | Shell | BashQuick => json!({"tool": k.tool_name(), "args": {"command": self.command(i)}}),
-            Write => json!({"tool": "write", "args": {"path": self.actor_file(i), "content": format!("by {i}\n")}}),
-            Patch => json!({"tool": "apply_patch", "args": {"patch": format!("*** Begin Patch\n*** Add File: {}\n+by {i}\n*** End Patch\n", self.actor_file(i))}}),
-            Unknown => json!({"tool": "frobnicate", "args": {}}),
-            Read => json!({"tool": "read", "args": {"path": "seed.txt"}}),
-            Ls => json!({"tool": "ls", "args": {"path": "."}}),
-            Grep => json!({"tool": "grep", "args": {"pattern": "seed", "path": "."}}),
-            Fetch => json!({"tool": "artifact_fetch", "args": {"id": "0".repeat(64)}}),
             CkptCreate => json!({"checkpoint": {"action": "create", "label": format!("c{i}"), "files": ["seed.txt"]}}),
             CkptRewind => json!({"checkpoint": {"action": "rewind", "id": self.rewind_id.clone().unwrap_or_default()}}),
-            _ => Value::Null,
+            Loop => return format!("please run the tools (actor {i})"),
+            _ => json!({"tool": k.tool_name(), "args": self.tool_args(i, 0, k)}),
         };
         v.to_string()
+    }
+
+    /// the kind of the call actor i is at
+    fn cur_kind(&self, i: usize) -> Kind {
+        let a = &self.sc.actors[i];
+        if a.kind == Loop {
+            a.calls.get(self.call[i] as usize).copied().unwrap_or(Unknown)
+        } else {
+            a.kind
+        }
+    }
+
+    fn provider_script(&self, i: usize) -> Vec<rv::provider::Scripted> {
+        let a = &self.sc.actors[i];
+        let sse = |lines: &[Value]| {
+            let mut s = String::new();
+            for l in lines {
+                s.push_str(&format!("data: {}\n\n", serde_json::to_string(l).unwrap()));
+            }
+            s.push_str("data: [DONE]\n\n");
+            s
+        };
+        let mut out = vec![];
+        for (c, k) in a.calls.iter().enumerate() {
+            let args = self.tool_args(i, c, *k).to_string();
+            let cid = format!("call_{i}_{c}");
+            out.push(rv::provider::Scripted::sse_text(&sse(&[
+                json!({"type":"response.created","response":{"id":format!("resp_{i}_{c}")}}),
+                json!({"type":"response.output_item.added","output_index":0,"item":{"type":"function_call","call_id":cid,"name":k.tool_name(),"arguments":args}}),
+                json!({"type":"response.output_item.done","output_index":0,"item":{"type":"function_call","call_id":cid,"name":k.tool_name(),"arguments":args}}),
+            ])));
+        }
+        out.push(rv::provider::Scripted::sse_text(&sse(&[
+            json!({"type":"response.created","response":{"id":format!("resp_{i}_end")}}),
+            json!({"type":"response.output_text.delta","delta":"done"}),
+        ])));
+        out
     }
 
     fn push(&mut self, a: usize, code: u64, call: u64) {
@@ -322,7 +375,7 @@ impl<'a> Run<'a> {
     }
 
     fn entered(&self, i: usize) -> bool {
-        read_markers(&self.side).iter().any(|(a, w)| *a == i && *w == 0)
+        open_sections(&read_markers(&self.side)).contains(&i)
     }
 
     /// waits until actor i parks, finishes, enters its blocking command, or `limit` elapses
@@ -358,17 +411,25 @@ impl<'a> Run<'a> {
         if open.len() > 1 {
             self.viol("overlap", format!("marker file shows mutating sections of actors {open:?} open at the same time"));
         }
+        let mut targets: Vec<(usize, String)> = vec![];
         for i in 0..self.sc.actors.len() {
-            if !matches!(self.sc.actors[i].kind, Write | Patch) {
-                continue;
+            let a = &self.sc.actors[i];
+            if matches!(a.kind, Write | Patch) {
+                targets.push((i, self.actor_file(i)));
             }
-            let name = self.actor_file(i);
+            for (c, k) in a.calls.iter().enumerate() {
+                if matches!(k, Write | Patch) {
+                    targets.push((i, self.call_file(i, c)));
+                }
+            }
+        }
+        for (i, name) in targets {
             let cur = std::fs::read(self.ws.join(&name)).unwrap_or_default();
             let old = self.files_seen.get(&name).cloned().unwrap_or_default();
             if cur != old {
                 self.files_seen.insert(name.clone(), cur);
                 if let Some(o) = open.iter().find(|o| **o != i) {
-                    self.viol("overlap", format!("workspace file {name} was written by actor {i} ({:?}) while actor {o} was inside its mutating command (step of actor {mover})", self.sc.actors[i].kind));
+                    self.viol("overlap", format!("workspace file {name} was written by actor {i} while actor {o} was inside its mutating command (step of actor {mover})"));
                 }
             }
         }
@@ -377,7 +438,7 @@ impl<'a> Run<'a> {
     fn start(&mut self, i: usize) {
         let spec = self.sc.actors[i].clone();
         self.ctl.set_starting(i);
-        if spec.kind.blocking() {
+        if spec.kind.blocking() || spec.calls.iter().any(|k| k.blocking()) {
             let p = self.side.join(format!("fifo{i}"));
             let c = std::ffi::CString::new(p.to_string_lossy().as_bytes()).unwrap();
             unsafe {
@@ -386,7 +447,7 @@ impl<'a> Run<'a> {
             self.fifos[i] = std::fs::OpenOptions::new().read(true).write(true).open(&p).ok();
         }
         if spec.kind.is_task() {
-            let id = ripd::verif::spawn_shell_task(&self.engine, "bash", json!({"command": self.command(i)}), spec.kind == TaskPty);
+            let id = ripd::verif::spawn_shell_task(&self.engine, "bash", json!({"command": self.command(i, true)}), spec.kind == TaskPty);
             self.ids[i] = id;
         } else {
             let handle = self.engine.create_session();
@@ -399,7 +460,24 @@ impl<'a> Run<'a> {
             } else {
                 None
             };
-            self.engine.spawn_session(handle, input, link, None);
+            let cfg = if spec.kind == Loop {
+                let prov = rv::provider::ScriptedProvider::start(self.provider_script(i));
+                let cfg = ripd::verif::OpenResponsesConfig {
+                    endpoint: prov.url.clone(),
+                    api_key: None,
+                    model: Some("scripted".into()),
+                    headers: vec![],
+                    tool_choice: rip_provider_openresponses::ToolChoiceParam::auto(),
+                    followup_user_message: None,
+                    stateless_history: false,
+                    parallel_tool_calls: false,
+                };
+                self.providers.push(prov);
+                Some(cfg)
+            } else {
+                None
+            };
+            self.engine.spawn_session(handle, input, link, cfg);
         }
         let st = self.wait_actor(i, LONG, false);
         self.status[i] = st;
@@ -411,7 +489,7 @@ impl<'a> Run<'a> {
     }
 
     fn on_first_park(&mut self, i: usize, p: &'static str) {
-        let k = self.sc.actors[i].kind;
+        let k = self.cur_kind(i);
         if k.is_task() {
             self.push(i, 8, 0); // tool_task_spawned precedes the acquire
             if p != "ws.task.before_acquire" {
@@ -493,7 +571,8 @@ impl<'a> Run<'a> {
     }
 
     fn go_from(&mut self, i: usize, p: &'static str) {
-        let k = self.sc.actors[i].kind;
+        let k = self.cur_kind(i);
+        let is_loop = self.sc.actors[i].kind == Loop;
         let linked = self.sc.actors[i].linked;
         let c = self.call[i];
         let frames_before = if linked { self.frames_of(i) } else { 0 };
@@ -570,7 +649,7 @@ impl<'a> Run<'a> {
             match st {
                 Status::Parked("cont.before_lock") => {}
                 Status::Parked(q) if q.ends_with(".appended") => self.appended(i, frames_before, c),
-                Status::Done if k.is_ckpt() || k.spec_readonly() || p.contains("ro.") => {
+                Status::Done if k.is_ckpt() || p.contains("ro.") => {
                     if !p.contains("ro.") {
                         self.push(i, 6, 0);
                     }
@@ -578,6 +657,10 @@ impl<'a> Run<'a> {
                     if !p.contains("ro.") {
                         self.released(i);
                     }
+                }
+                Status::Parked(q) if is_loop && p.contains("ro.") => {
+                    self.call[i] += 1;
+                    self.on_loop_next(i, q);
                 }
                 other => self.viol("stuck", format!("actor {i} after .emitted came back as {other:?}")),
             }
@@ -602,7 +685,7 @@ impl<'a> Run<'a> {
                 Status::Done => {
                     self.push(i, 7, 0);
                 }
-                Status::Parked(_) if k == Loop => {
+                Status::Parked(_) if is_loop => {
                     self.call[i] += 1;
                 }
                 other => self.viol("stuck", format!("actor {i} after .appended came back as {other:?}")),
@@ -617,7 +700,9 @@ impl<'a> Run<'a> {
         self.ctl.grant(i);
     }
 
-    fn on_loop_next(&mut self, _i: usize, _q: &'static str) {}
+    fn on_loop_next(&mut self, i: usize, q: &'static str) {
+        self.on_first_park(i, q);
+    }
 
     fn frames_expected_before(&self, i: usize) -> u64 {
         // frames of earlier calls of the same run
@@ -765,6 +850,7 @@ fn run_scenario(rt: &tokio::runtime::Runtime, ctl: &Arc<Ctl>, sc: &Scenario, set
         settle,
         obs: Obs { steps: vec![], ends_linked: vec![], violations: vec![], blocked_attempts: 0, ro_overlaps: 0, intrusions: 0 },
         files_seen: BTreeMap::new(),
+        providers: vec![],
         span_owner: None,
         tool_running: false,
     };
@@ -869,18 +955,31 @@ fn run_scenario(rt: &tokio::runtime::Runtime, ctl: &Arc<Ctl>, sc: &Scenario, set
         match &e.kind {
             EventKind::ContinuityToolSideEffects { run_session_id, tool_name, affected_paths, .. } => {
                 let Some(a) = run.ids.iter().position(|s| s == run_session_id) else { continue };
-                let c = *per_actor_calls.get(&a).unwrap_or(&0);
-                per_actor_calls.insert(a, c + 1);
+                let j = *per_actor_calls.get(&a).unwrap_or(&0);
+                per_actor_calls.insert(a, j + 1);
+                let k0 = sc.actors[a].kind;
+                // frame ordinal j of a loop session -> index of its j-th call that is not read-only
+                let (c, k) = if k0 == Loop {
+                    let idx: Vec<usize> = sc.actors[a].calls.iter().enumerate().filter(|(_, k)| !k.spec_readonly()).map(|(x, _)| x).collect();
+                    match idx.get(j as usize) {
+                        Some(x) => (*x as u64, sc.actors[a].calls[*x]),
+                        None => {
+                            run.viol("frame-count", format!("loop session {a} has more side-effects frames than mutating calls"));
+                            (99, Unknown)
+                        }
+                    }
+                } else {
+                    (0, k0)
+                };
                 frames.push((a as u64, c));
-                let k = sc.actors[a].kind;
                 if run_ended_seen.contains(&a) {
                     run.viol("frame-after-run-end", format!("side-effects frame of actor {a} comes after its run_ended frame"));
                 }
-                if k != Loop && tool_name != k.tool_name() {
-                    run.viol("frame-content", format!("frame of actor {a} names tool {tool_name}, the call was {}", k.tool_name()));
+                if tool_name != k.tool_name() {
+                    run.viol("frame-content", format!("frame {j} of actor {a} names tool {tool_name}, the call was {}", k.tool_name()));
                 }
                 if matches!(k, Write | Patch) {
-                    let want = Some(vec![run.actor_file(a)]);
+                    let want = Some(vec![run.call_file(a, c as usize)]);
                     if *affected_paths != want {
                         run.viol("frame-content", format!("frame of actor {a} ({k:?}) lists {affected_paths:?}, the call changed {want:?}"));
                     }
@@ -896,10 +995,17 @@ fn run_scenario(rt: &tokio::runtime::Runtime, ctl: &Arc<Ctl>, sc: &Scenario, set
     }
     if clean {
         for (a, spec) in sc.actors.iter().enumerate() {
-            if !spec.linked || spec.kind.is_task() || spec.kind == Loop {
+            if !spec.linked || spec.kind.is_task() {
                 continue;
             }
             let cnt = frames.iter().filter(|(x, _)| *x as usize == a).count();
+            if spec.kind == Loop {
+                let want = spec.calls.iter().filter(|k| !k.spec_readonly()).count();
+                if cnt != want {
+                    run.viol("frame-count", format!("loop session {a} made {want} mutating tool calls and has {cnt} side-effects frames"));
+                }
+                continue;
+            }
             if spec.kind.spec_mutating_tool() && cnt != 1 {
                 run.viol("frame-count", format!("mutating tool call of actor {a} ({:?}) attached to the thread has {cnt} side-effects frames", spec.kind));
             }
@@ -907,8 +1013,16 @@ fn run_scenario(rt: &tokio::runtime::Runtime, ctl: &Arc<Ctl>, sc: &Scenario, set
                 run.viol("frame-count", format!("read-only tool call of actor {a} ({:?}) has {cnt} side-effects frames", spec.kind));
             }
         }
-        let got: Vec<(usize, u64)> = frames.iter().map(|(a, c)| (*a as usize, *c)).filter(|(a, _)| sc.actors[*a].kind.spec_mutating_tool() || sc.actors[*a].kind == Loop).collect();
-        let want: Vec<(usize, u64)> = run.obs.ends_linked.iter().copied().filter(|(a, _)| sc.actors[*a].kind.spec_mutating_tool() || sc.actors[*a].kind == Loop).collect();
+        let logged = |a: usize, c: u64| -> bool {
+            let sp = &sc.actors[a];
+            if sp.kind == Loop {
+                sp.calls.get(c as usize).map(|k| k.spec_mutating_tool()).unwrap_or(false)
+            } else {
+                sp.kind.spec_mutating_tool()
+            }
+        };
+        let got: Vec<(usize, u64)> = frames.iter().map(|(a, c)| (*a as usize, *c)).filter(|(a, c)| logged(*a, *c)).collect();
+        let want: Vec<(usize, u64)> = run.obs.ends_linked.iter().copied().filter(|(a, c)| logged(*a, *c)).collect();
         if got != want {
             run.viol("frame-order", format!("side-effects frames on the thread are in order {got:?} (actor, call); the mutations ended in order {want:?}"));
         }
@@ -923,12 +1037,18 @@ fn run_scenario(rt: &tokio::runtime::Runtime, ctl: &Arc<Ctl>, sc: &Scenario, set
 fn gen_scenario(r: &mut Rng, thorough: bool) -> Scenario {
     let n = r.range(2, if thorough { 6 } else { 5 }) as usize;
     let mut actors = vec![];
-    let mutators = [Bash, Bash, Shell, BashQuick, Write, Write, Patch, Unknown, CkptCreate, CkptRewind, Task, Task, Task];
+    let mutators = [Bash, Bash, Shell, BashQuick, Write, Write, Patch, Unknown, CkptCreate, CkptRewind, Task, Task, Loop, Loop];
     let readers = [Read, Ls, Grep, Fetch];
     for i in 0..n {
         let kind = if i == 0 || r.chance(7, 10) { *r.pick(&mutators) } else { *r.pick(&readers) };
         let linked = !kind.is_task() && r.chance(3, 4);
-        actors.push(ActorSpec { kind, linked });
+        let calls = if kind == Loop {
+            let pool = [BashQuick, Write, Patch, Read, Ls, Grep, Bash, Unknown, Write];
+            (0..r.range(1, 4)).map(|_| *r.pick(&pool)).collect()
+        } else {
+            vec![]
+        };
+        actors.push(ActorSpec { kind, linked, calls });
     }
     // at most three FIFO-blocked shells can be inside the tool runner at once (its own permit count
     // is 4); more than one can only happen after a violation, keep the scenario small anyway
@@ -936,7 +1056,8 @@ fn gen_scenario(r: &mut Rng, thorough: bool) -> Scenario {
 }
 
 fn corpus() -> Vec<Scenario> {
-    let a = |kind, linked| ActorSpec { kind, linked };
+    let a = |kind, linked| ActorSpec { kind, linked, calls: vec![] };
+    let lp = |calls: &[Kind], linked| ActorSpec { kind: Loop, linked, calls: calls.to_vec() };
     vec![
         // B goes for the lock while A sits in its command; a reader passes; then in frame order
         Scenario { actors: vec![a(Bash, true), a(Write, true), a(Read, true)], gos: vec![0, 0, 0, 1, 1, 2, 2, 2, 0, 0, 0, 0, 0, 1, 1, 1, 1, 1, 1], seed: 1 },
@@ -946,6 +1067,9 @@ fn corpus() -> Vec<Scenario> {
         Scenario { actors: vec![a(Task, false), a(Bash, true), a(Task, false)], gos: vec![0, 0, 0, 1, 1, 0, 0, 1, 2, 2, 1, 1, 1, 1, 1, 2, 2, 2], seed: 3 },
         // checkpoint create / rewind against a shell alias and a pty task
         Scenario { actors: vec![a(Shell, true), a(CkptCreate, true), a(CkptRewind, false), a(Task, false)], gos: vec![0, 0, 0, 1, 1, 2, 2, 3, 3, 0, 0, 0, 0, 0], seed: 4 },
+        // provider-driven sessions (agent-loop call site) against a blocked shell
+        Scenario { actors: vec![lp(&[Write, Read, BashQuick], true), a(Bash, true), lp(&[Ls, Patch], true)], gos: vec![], seed: 6 },
+        Scenario { actors: vec![lp(&[Bash, Write], true), lp(&[Write, Grep, Write], true), a(Task, false)], gos: vec![], seed: 7 },
         // readers among themselves and an unknown tool
         Scenario { actors: vec![a(Grep, true), a(Ls, false), a(Fetch, true), a(Unknown, true), a(BashQuick, true)], gos: vec![3, 3, 0, 1, 2, 4, 4, 0, 1, 2, 3, 3, 3, 3, 3], seed: 5 },
     ]
@@ -954,7 +1078,7 @@ fn corpus() -> Vec<Scenario> {
 fn coq_case(sc: &Scenario, o: &Outcome) -> String {
     let actors = coq_list(&sc.actors, |a| {
         let (k, names): (u64, Vec<&str>) = match a.kind {
-            Loop => (1, vec![]),
+            Loop => (1, a.calls.iter().map(|k| k.tool_name()).collect()),
             CkptCreate | CkptRewind => (2, vec![]),
             Task | TaskPty => (3, vec![]),
             k => (0, vec![k.tool_name()]),
